@@ -55,6 +55,8 @@ type Ctx struct {
 	funcs    map[string]bool
 	sites    int
 	excepts  []string
+	// noImports: this context is itself being evaluated for an import
+	noImports bool
 }
 
 // Rule declares a rule and its floor; must be called before emitting obligations.
@@ -132,6 +134,49 @@ func (c *Ctx) Exception(symbol, reason string) {
 }
 
 func (c *Ctx) CountSite() { c.sites++ }
+
+// ImportRules adopts rules of another property that are necessary conditions of this one as
+// well (shared clauses: e.g. 'every byte copied out of an envelope is accounted for' is needed
+// both for chunking independence and for messages arriving intact).  The other property's rule
+// set is evaluated on the same program (once per program) and the named rules' obligations are
+// taken over under their own keys.
+func (c *Ctx) ImportRules(from string, ruleIDs ...string) {
+	spec := registry[from]
+	if spec == nil {
+		fatalf("internal: ImportRules from unknown property %s", from)
+	}
+	if c.noImports {
+		return
+	}
+	key := "imported-run:" + from + ":" + c.Tier
+	var child *Ctx
+	if v, ok := c.P.memo[key]; ok {
+		child = v.(*Ctx)
+	} else {
+		child = &Ctx{P: c.P, Property: from, Tier: c.Tier}
+		// avoid import cycles: while evaluating `from`, further imports are not followed
+		child.noImports = true
+		spec.Run(child)
+		c.P.memo[key] = child
+	}
+	want := map[string]bool{}
+	for _, id := range ruleIDs {
+		want[id] = true
+		ri := child.rules[id]
+		if ri == nil {
+			fatalf("internal: property %s has no rule %s to import", from, id)
+		}
+		c.Rule(id, ri.Text+" (clause shared with "+from+")", ri.Floor)
+	}
+	for _, o := range child.obls {
+		if !want[o.Rule] {
+			continue
+		}
+		cp := *o
+		c.obls = append(c.obls, &cp)
+		c.rules[o.Rule].Instances++
+	}
+}
 
 // --------------------------------------------------------------- known findings
 
